@@ -502,6 +502,10 @@ func (rule *overlappingFieldsCanBeMergedRule) getFieldsAndFragmentNames(parentTy
 				if parentType, ok := parentType.(*Interface); ok && parentType != nil {
 					fieldDef, _ = parentType.Fields()[fieldName]
 				}
+				if fieldDef == nil && fieldName == TypeNameMetaFieldDef.Name && parentType != nil && IsCompositeType(parentType) {
+					// the meta field has a type too: String!
+					fieldDef = TypeNameMetaFieldDef
+				}
 
 				responseName := fieldName
 				if selection.Alias != nil {
